@@ -56,15 +56,22 @@ def handle1 (entry : String) (j : Json) : Except String Json := do
     let pad := fieldD j "pad" Json.null
     let xs ← getXs j
     let e ← getEnding j
-    let t := blocksTrace size hop pad xs e
+    -- "fast": spec only (the shrinker's candidates of large cases; model = spec is theorems
+    -- trace_fail / trace_stop, running the O(size*len) list model again for every candidate is not needed)
+    let fast ← getBool (fieldD j "fast" (Json.bool false))
     let full := (List.range (nFull size hop xs.length)).map
       fun k => (k * hop + size, (xs.drop (k * hop)).take size)
     let closed := match e with
       | .fail => full
       | .stop => full ++ (tailBlock size hop pad xs).map fun b => (xs.length, b)
-    pure <| Json.mkObj [
-      ("model", evJson t.events), ("raised", Json.bool t.raised),
-      ("spec", evJson closed), ("spec_raised", Json.bool (e == .fail))]
+    if fast then
+      pure <| Json.mkObj [("model", Json.null), ("raised", Json.null),
+        ("spec", evJson closed), ("spec_raised", Json.bool (e == .fail))]
+    else
+      let t := blocksTrace size hop pad xs e
+      pure <| Json.mkObj [
+        ("model", evJson t.events), ("raised", Json.bool t.raised),
+        ("spec", evJson closed), ("spec_raised", Json.bool (e == .fail))]
   | "mut" =>
     -- the caller edits the yielded containers in place
     let (size, hop) ← sizeHop j
